@@ -50,8 +50,8 @@ def run_item(item, held=None):
 
     kind = item["kind"]
     bad = []
-    with warnings.catch_warnings():
-        warnings.simplefilter("ignore")
+    warnings.simplefilter("ignore")  # process-wide and idempotent: catch_warnings() is not thread-safe
+    if True:
         try:
             if kind == "wire":
                 inst = M.build(item["inst"])
@@ -121,8 +121,8 @@ def run_item(item, held=None):
 def held_state(inst):
     from ofxtools.Client import OFXClient
 
-    with warnings.catch_warnings():
-        warnings.simplefilter("ignore")
+    warnings.simplefilter("ignore")
+    if True:
         plain = OFXClient("https://x.invalid", version=203).serialize(inst)
         state = [M.dump(inst), M.etree_dump(inst.to_etree()), plain.decode("utf_8", "replace")]
         # a pretty-printed and an unclosed serialisation of the same instance must leave no trace
@@ -139,9 +139,8 @@ def check_case(case):
         inst = None
         if probe["kind"] in ("wire", "tree", "dirtytree"):
             try:
-                with warnings.catch_warnings():
-                    warnings.simplefilter("ignore")
-                    inst = M.build(probe["inst"])
+                warnings.simplefilter("ignore")
+                inst = M.build(probe["inst"])
                 h0 = held_state(inst)
             except Exception:
                 inst = None
